@@ -346,6 +346,38 @@ def symmetry_forms(ctx):
     return ev
 
 
+INSTRUCTION_FORMS = [
+    # valid forms with values that generators drawing 'ordinary positive numbers' do not reach (each was needed by a seeded change once)
+    'DFIX -2.5 C1 O1', 'DFIX -2.5 0.03 C1 O1', 'DFIX 1.5 C1 O1 C1 N1', 'DANG 2.4 C1 N1', 'SADI 0 C1 O1 C1 N1', 'FLAT 0 C1 O1 N1 C2', 'ISOR 0 0 C1', 'DAMP 0 0',
+    'SHEL 999 0', 'OMIT -3 55', 'OMIT 0 0 2', 'TEMP -273.15', 'TEMP 0', 'SIZE 0 0 0', 'WGHT 0 0', 'EXTI 0', 'SWAT 0 0', 'BASF 0', 'PLAN 0', 'PLAN -20', 'L.S. 0', 'CGLS 0 0 0',
+    'FMAP -2', 'LIST 0', 'MERG 0', 'BOND 0', 'CONF 0', 'HTAB 0', 'ACTA 0', 'STIR 0', 'XNPD 0', 'XNPD -0.001', 'BUMP 0', 'SPEC 0',
+]
+
+
+def instruction_forms(ctx):
+    """instructions with negative and zero values between the atoms: read to the end in every mode, the same model in all three"""
+    ev = 0
+    for form in INSTRUCTION_FORMS:
+        lines = HEAD + ATOMS[:2] + [form] + ATOMS[2:] + TAIL
+        text = '\n'.join(lines) + '\n'
+        models = []
+        for mode in MODES:
+            status, inner, shx = im.read_text(text, mode)
+            ev += 1
+            case = {'instruction': form, 'mode': mode, 'text': text}
+            if status != 'ok' or inner:
+                common.add_violation(ctx, 'a valid instruction raises', case, 'no exception', status + ' / ' + str(inner))
+                continue
+            names = [a.name for a in shx.atoms.all_atoms]
+            if names != ['C1', 'O1', 'N1', 'C2'] or shx.error_line_num != len(lines) - 1 or not shx.end:
+                common.add_violation(ctx, 'atoms or END after a valid instruction are not reached', case, ['C1', 'O1', 'N1', 'C2'], names)
+                continue
+            models.append((im.atoms_table(shx), im.instr_tokens(shx)))
+        if len(models) == 3 and not (models[0] == models[1] == models[2]):
+            common.add_violation(ctx, 'the model differs between quiet, verbose and debug mode', {'instruction': form, 'text': text}, 'identical', 'different')
+    return ev
+
+
 NASTY = ['', '_', '__', 'C1__2', 'C1_1_2', 'C1_', '_2', '_*', 'C1_*_2', 'C1_$', '$', '$$', '_$1', '=', '==', '!', '.', '-', '+', '-.', '1e999', 'nan', 'inf', '-inf',
          '1.2.3', '--1', '0x10', '>', '<', '> <', '1,5', '1/0', '1/', '/2', '(1)', '0.5(', 'X+', '+X+', 'x,y', ',', ':', 'A:', ':1', 'A:B', '\t', '\x0c',
          '99999999999999999999', '1e-999', '+filename', '+', '++x', 'END', 'HKLF', 'FEND', 'FRAG']
@@ -455,7 +487,7 @@ def run(ctx):
     else:
         ctx.discharged += 1
     ng, nacc = run_grid(ctx)
-    n1 = covering(ctx) + footers(ctx) + context_forms(ctx) + continuations(ctx) + header_forms(ctx) + atom_forms(ctx) + symmetry_forms(ctx)
+    n1 = covering(ctx) + footers(ctx) + context_forms(ctx) + continuations(ctx) + header_forms(ctx) + atom_forms(ctx) + symmetry_forms(ctx) + instruction_forms(ctx)
     n2 = random_files(ctx, 3000 if ctx.thorough() else 40)
     n3 = malformed(ctx, 150000 if ctx.thorough() else 1500) + malformed_tokens(ctx, 60000 if ctx.thorough() else 1500)
     ctx.cov['evaluations'] = ng + n1 + n2 + n3
